@@ -120,7 +120,7 @@ _HIST = {
  'C20': ' Prolongate is also called on stored element lists after the mesh was refined further and with permuted fine lists. Custom non-uniform tensor grids (equal levels, different sizes), custom closed curves, cross-curve histories in fresh processes.',
 }
 _HIST['C02'] = ' Deep directed roots: time / space level 22 (30) next to t = T / x = L, staircases of 13 (16) forced bisections.'
-_HIST['C14'] = ''
+_HIST['C14'] = ' Two-order constructor Slobodeckij(N_time, N_space): differential against the single-order objects.'
 _HIST['C16'] += ' Deep targets of level 8, 10, 12 (thorough: up to 14).'
 _HIST['C07'] += ' Custom thin rectangle with end time 2^-8; deep directed universes (space level 11 / 14 next to both ends of the parameter interval).'
 _HIST['C06'] += ' Power-of-two scaled indicator families (2^-30 .. 2^40); mode D: deep directed roots (level 17+) with every ordered pair (deep leaf, any leaf) marked.'
